@@ -4,8 +4,8 @@
     [run] section and [timeouts.command].
 
     Option values are kept as they are (no coercion): the code tests some by
-    truthiness ([if self._asynchronous]), some by identity ([opts["hide"] is True],
-    [opts["dry"] is True]) and passes the rest through. *)
+    truthiness ([if self._asynchronous]), some by identity ([opts["dry"] is True],
+    [opts["hide"] is True or == "both"]) and passes the rest through. *)
 From InvokeVerif Require Export Model.RunTypes.
 
 (** [self.context.config.run[key]] *)
@@ -47,6 +47,14 @@ Definition normalize_hide (val out_stream err_stream : oval) : option (list stri
       Some hide
   end.
 
+(** [opts["hide"] is True or opts["hide"] == "both"] (fix f03a111) *)
+Definition hide_full (v : oval) : bool :=
+  match v with
+  | OBool true => true
+  | OStr s => String.eqb s "both"
+  | _ => false
+  end.
+
 Definition unify (c : config) (k : kwargs) : result resolved :=
   let opts0 := fun o => pick (kw k o) (cfg_run c o) in
   let timeout := match kw_timeout k with Some v => v | None => cf_timeout c end in
@@ -57,7 +65,7 @@ Definition unify (c : config) (k : kwargs) : result resolved :=
       let disown := truthy (opts0 Disown) in
       if async && disown then Err EValue
       else
-        let echo1 := if is_True (opts0 Hide) then OBool false else opts0 Echo in
+        let echo1 := if hide_full (opts0 Hide) then OBool false else opts0 Echo in
         let echo2 := if is_True (opts0 Dry) then OBool true else echo1 in
         let hide1 := if async then OBool true else opts0 Hide in
         match normalize_hide hide1 (opts0 OutStream) (opts0 ErrStream) with
